@@ -312,7 +312,14 @@ def check_hugr_case(ctx, case, stratum="hugr"):
     ctx.count("monitor:hugr-resolve")
     r = h.resolve_extensions(reg)
     if r is not h:
-        bad("resolve_extensions-return", "return value", "the same Hugr", repr(type(r)))
+        # the statement does not say whether resolution happens in place: judge the HUGR that is returned
+        ctx.count("observed:resolve_extensions-returned-another-object")
+        from hugr import Hugr
+
+        if not isinstance(r, Hugr):
+            bad("resolve_extensions-return", "return value", "a Hugr", repr(type(r)))
+        else:
+            h = r
     n_opaque = 0
     hits = 0
     for n in h:
